@@ -58,7 +58,8 @@ def dist_case(draw):
     if fam == "schulz_zimm":
         mn = r3(draw(st.floats(50, 5000)))
         ratio = draw(st.one_of(st.floats(1.05, 2.0), st.sampled_from([2.0, 1.5, 1.25, 1.1, 1.05])))
-        return fam, (r3(mn * ratio), mn)
+        # rounding to 4 digits must not push Mw/Mn above 2 (z < 1 is outside the documented region)
+        return fam, (min(r3(mn * ratio), 2.0 * mn), mn)
     if fam == "log_normal":
         return fam, (r3(draw(st.floats(20, 1e4))), r3(draw(st.floats(1.02, 3.0))))
     if fam == "poisson":
